@@ -10,6 +10,7 @@ from fractions import Fraction
 import numpy as np
 
 import gen
+import alignchk as ac
 from common import rng_for, run_model, coq_eval, w_list, frac
 from draws import Draws
 
@@ -223,6 +224,46 @@ def run(rep, tier, seed, pa):
                 continue
             lines.append(line)
             metas.append((dict(desc), bad, ctx, list(anns), cats, params, weights, "custom"))
+    # far positions: gaps so large that the float spacing at a unit's start is comparable to the durations drawn (epoch-like timestamps).  The exact
+    # model does not apply there (it has no rounding), so only the output-level clauses are judged: every draw returns a continuum, it has exactly
+    # the requested annotators, none empty, every emitted segment at least the precision long, only the listed categories
+    from pyannote.core.segment import SEGMENT_PRECISION
+    for P in ([3.0, 1.0, 1e9, 10.0, 2e-6, 1e-6], [3.0, 1.0, 2e11, 100.0, 1e-4, 5e-5], [4.0, 0.0, 1e9, 0.0, 1.5e-6, 1e-6]):
+        fs = pa.StatisticalContinuumSampler()
+        fanns, fcats = ["a", "b"], ["A", "B"]
+        pd = dict(zip(("avg_nb", "std_nb", "avg_gap", "std_gap", "avg_dur", "std_dur"), P))
+        try:
+            fs.init_sampling_custom(fanns, *P, fcats, None)
+        except Exception as e:
+            rep.violation("init-custom-raises:" + type(e).__name__, {"custom": pd, "annotators": fanns, "categories": fcats, "weights": None, "error": repr(e)},
+                          "init_sampling_custom raised %r" % (e,))
+            continue
+        for di in range(12 if tier == "quick" else 120):
+            npseed = rng.randrange(2 ** 31)
+            desc = {"custom": pd, "annotators": fanns, "categories": fcats, "weights": None, "numpy_seed": npseed, "far_positions": True}
+            rep.count("kind=far-positions")
+
+            def draw():
+                np.random.seed(npseed)
+                c = fs.sample_from_continuum
+                return [(a, u.segment.start, u.segment.end, u.annotation) for a, u in c], list(c.annotators)
+            try:
+                us, got_anns = ac.run_forked(30, draw)
+            except ac.Watchdog:
+                rep.case()
+                rep.count("far_positions_redraw_does_not_end_skipped")    # the redraw loop of the unchanged code can spin when the spacing exceeds every draw
+                continue
+            except Exception as e:
+                rep.case()
+                rep.violation("sampler-raises:far-positions", dict(desc, error=str(e)[:300]), "sample_from_continuum raised: %s" % (str(e)[:200],))
+                continue
+            rep.case(sample={"kind": "far-positions", "units": len(us)}, nontrivial_key=repr(desc))
+            if got_anns != sorted(fanns) or any(a not in [x[0] for x in us] for a in fanns):
+                rep.violation("sample-annotators", desc, "far positions: annotators %r (with units: %r), requested %r" % (got_anns, sorted(set(x[0] for x in us)), fanns))
+            if any(e - s0 < SEGMENT_PRECISION for _, s0, e, _ in us):
+                rep.violation("short-segment", desc, "far positions: a segment shorter than the precision was emitted")
+            if any(l not in fcats for _, _, _, l in us):
+                rep.violation("foreign-category", desc, "far positions: a category outside the supplied list")
     # (1) parameters
     for (desc, sampler, cats), out in zip(pmetas, run_model(plines)):
         vals = [Fraction(out[2 * i], out[2 * i + 1]) for i in range(6)]
@@ -281,6 +322,20 @@ def screen(rep, pa, rng):
 
 def replay(rep, data, pa):
     print("  C15 replay: re-run the recorded draws %r ..." % (data.get("draws", [])[:6],))
+    if data.get("far_positions"):
+        pr = data["custom"]
+        sampler = pa.StatisticalContinuumSampler()
+        sampler.init_sampling_custom(data["annotators"], pr["avg_nb"], pr["std_nb"], pr["avg_gap"], pr["std_gap"], pr["avg_dur"], pr["std_dur"], data["categories"], None)
+        np.random.seed(data["numpy_seed"])
+        try:
+            c = sampler.sample_from_continuum
+        except Exception as e:
+            print("  sample_from_continuum raised %r" % (e,))
+            return False
+        ok = list(c.annotators) == sorted(data["annotators"]) and all(len(c[a]) > 0 for a in data["annotators"]) and \
+            all(u.segment.end - u.segment.start >= 1e-6 and u.annotation in data["categories"] for _, u in c)
+        print("  far positions: %d units, all clauses hold: %r" % (c.num_units, ok))
+        return ok
     if "custom" in data:
         # custom parameters: the same sampler object goes through the recorded earlier initialisations first, then this one
         sampler = pa.StatisticalContinuumSampler()
